@@ -264,6 +264,143 @@ def h_preauth(kind):
     return ['preauth', b.state.name]
 
 
+def _locate(m, data, what):
+    """offset (and width) of a named field inside a serialised IKE_SA_INIT message"""
+    msg = m.Message.parse(bytes(data))
+    off = 28
+    for pl in msg.payloads:
+        body = pl.to_bytes()
+        if what in ('keylen', 'transform_id', 'proposal_num', 'transform_reserved') and pl.type == m.Payload.Type.SA:
+            # SA body: proposal header (8 bytes + SPI) then transforms: [last/more, 0, len(2), type, 0, id(2), attr...]
+            spi_size = body[6]
+            t0 = off + 4 + 8 + spi_size
+            return {'keylen': (t0 + 10, 2), 'transform_id': (t0 + 6, 2), 'proposal_num': (off + 4 + 4, 1), 'transform_reserved': (t0 + 5, 1)}[what]
+        if what == 'nonce' and pl.type == m.Payload.Type.NONCE:
+            return off + 4, 1
+        if what == 'nonce_last' and pl.type == m.Payload.Type.NONCE:
+            return off + 4 + len(body) - 1, 1
+        if what == 'ke_group' and pl.type == m.Payload.Type.KE:
+            return off + 4, 2
+        if what == 'ke_last' and pl.type == m.Payload.Type.KE:
+            return off + 4 + len(body) - 1, 1
+        if what == 'payload_reserved' and pl.type == m.Payload.Type.NONCE:
+            return off + 1, 1
+        off += 4 + len(body)
+    raise KeyError(what)
+
+
+def _rewrite(m, eng, data, how):
+    """the man in the middle: -> the datagram it forwards instead of `data` (symbolic where `how` names a field)"""
+    from symx import core
+    data = bytes(data)
+    if how == 'none':
+        return data
+    if how.startswith('flip:'):
+        off, width = _locate(m, data, how[5:])
+        return data[:off] + bytes([data[off] ^ 1]) + data[off + 1:]
+    if how.startswith('field:'):
+        off, width = _locate(m, data, how[6:])
+        v = eng.sym_bytes(f'rewritten_{how[6:]}', width)
+        if isinstance(v, (bytes, bytearray)):
+            return data[:off] + bytes(v) + data[off + width:]
+        return core.SymBytes(list(data[:off])) + v + data[off + width:]
+    msg = m.Message.parse(data)
+    sa = msg.get_payload(m.Payload.Type.SA)
+    T = m.Transform
+    if how == 'drop_first_encr':
+        pr = sa.proposals[0]
+        first = next(x for x in pr.transforms if x.type == T.Type.ENCR)
+        pr.transforms = [x for x in pr.transforms if x is not first]
+    elif how == 'reverse_transforms':
+        sa.proposals[0].transforms = list(reversed(sa.proposals[0].transforms))
+    elif how == 'weaker_proposal_first':
+        pr = sa.proposals[0]
+        weak = m.Proposal(1, pr.protocol_id, pr.spi, [x for x in pr.transforms if not (x.type == T.Type.ENCR and x.keylen == 256)])
+        pr.num = 2
+        sa.proposals = [weak, pr]
+    elif how == 'append_notify':
+        msg.payloads.append(m.PayloadNOTIFY(m.Proposal.Protocol.NONE, m.PayloadNOTIFY.Type.INITIAL_CONTACT, b'', b''))
+    elif how == 'append_vendor':
+        msg.payloads.append(m.PayloadVENDOR(b'not pyikev2') if hasattr(m, 'PayloadVENDOR') else m.PayloadNOTIFY(m.Proposal.Protocol.NONE, 16431, b'', b''))
+    elif how == 'reorder_payloads':
+        msg.payloads = list(reversed(msg.payloads))
+    else:
+        raise KeyError(how)
+    out = bytes(msg.to_bytes())
+    assert out != data
+    return out
+
+
+def h_mitm(direction, how, late):
+    """a man in the middle forwards a REWRITTEN copy of the IKE_SA_INIT request (to the responder) or response (to the initiator) and, depending on
+    `late`, also lets the genuine datagram through afterwards (duplication/reordering, same SPIs and Message ID 0); the handshake then runs on.
+    Nobody becomes ESTABLISHED and nothing is installed unless the message the deceived side ACTED ON (parsed and re-serialised by this harness,
+    independently of what that side stored) is the message the other side sent - proved over all values of the rewritten field."""
+    from symx import core, shims
+    eng = core.engine()
+    shims.HMAC_UF.injective = True
+    shims.HMAC_UF.link_concrete = True
+    try:
+        return _h_mitm(direction, how, late)
+    finally:
+        shims.HMAC_UF.link_concrete = False
+
+
+def _h_mitm(direction, how, late):
+    from symx import core, shims
+    eng = core.engine()
+    m, ik = MODS['message'], MODS['ikesa']
+    S = ik.IkeSa.State
+    p = world.Pair(ike_encr=('aes256', 'aes128'))
+    a, b = p.a, p.b
+    m1 = bytes(p.init_req())
+
+    def deliver(to, data):
+        try:
+            return p.send(to, data)
+        except m.IkeSaError:
+            return None
+    if direction == 'request':
+        m1x = _rewrite(m, eng, m1, how)
+        acted_on, sent = m1x, m1
+        m2 = deliver('B', m1x)
+        for _ in range({'none': 0, 'genuine': 1, 'genuine_twice': 2}[late]):
+            deliver('B', m1)
+        m2x = m2
+    else:
+        m2 = deliver('B', m1)
+        m2x = _rewrite(m, eng, m2, how)
+        acted_on, sent = m2x, bytes(m2)
+    if m2x is None:
+        return ['mitm', 'no response']
+    m3 = deliver('A', m2x)
+    if direction == 'response':
+        for _ in range({'none': 0, 'genuine': 1, 'genuine_twice': 2}[late]):
+            deliver('A', bytes(m2))
+    m4 = deliver('B', m3) if m3 is not None else None
+    if m4 is not None:
+        deliver('A', m4)
+    inst_a = [x for x in p.A.kernel.log if x['op'] == 'NEWSA']
+    inst_b = [x for x in p.B.kernel.log if x['op'] == 'NEWSA']
+    up_a = a.state == S.ESTABLISHED or bool(inst_a) or bool(a.child_sas)
+    up_b = b.state == S.ESTABLISHED or bool(inst_b) or bool(b.child_sas)
+    if direction == 'response':
+        # the responder was told nothing wrong: it may well accept the initiator's genuine AUTH; the deceived side is the initiator
+        up_b = False
+    if not (up_a or up_b):
+        return ['mitm', 'failed']
+    # what the deceived side understood: the datagram it was given, parsed and re-serialised
+    try:
+        understood = m.Message.parse(acted_on).to_bytes()
+    except Exception as e:
+        return {'class': ['mitm'], 'violation': f'established on an IKE_SA_INIT {direction} that does not even parse ({type(e).__name__})'}
+    L = core.SymBytes.lift
+    same = (L(understood) == sent) if len(understood) == len(sent) else False
+    eng.prove(same, f'established={"A" if up_a else ""}{"B" if up_b else ""} (or IPsec SAs installed) although the IKE_SA_INIT {direction} the deceived side acted on '
+                    f'is not the one its peer sent ({how}; late genuine copy: {late}): the change in flight went unnoticed')
+    return ['mitm', 'established']
+
+
 def build_instances(tier):
     inst = []
     nat = common.native_of
@@ -287,6 +424,16 @@ def build_instances(tier):
                 if tier == 'quick' and nt in ('NO_ADDITIONAL_SAS', 'INVALID_SYNTAX'):
                     continue
                 inst.append(Instance(f'verify {role} psk shape={sk}:{nt}', h_verify, (role, 'psk', None, f'{sk}:{nt}'), pin=('id_type', 'id_data', 'method')))
+    hows = ['drop_first_encr', 'reverse_transforms', 'weaker_proposal_first', 'append_notify', 'reorder_payloads',
+            'field:keylen', 'field:transform_id', 'flip:nonce', 'flip:nonce_last', 'flip:ke_last', 'field:ke_group', 'field:proposal_num', 'field:payload_reserved', 'field:transform_reserved']
+    for direction in ('request', 'response'):
+        for how in hows:
+            for late in (('none', 'genuine') if tier == 'quick' else ('none', 'genuine', 'genuine_twice')):
+                if direction == 'response' and how in ('drop_first_encr', 'weaker_proposal_first'):
+                    continue
+                inst.append(Instance(f'mitm {direction} {how} late={late}', h_mitm, (direction, how, late), native=nat(h_mitm)))
+    inst.append(Instance('mitm request none late=genuine', h_mitm, ('request', 'none', 'genuine'), native=nat(h_mitm),
+                         must_reach=[('established', lambda o: o == ['mitm', 'established'])]))
     for ak in ('psk', 'rsa'):
         inst.append(Instance(f'sign {ak}', h_sign, (ak,), engine_kw={'max_ticks': 10 ** 7}))
     inst.append(Instance('credential / identity mismatch', h_mismatch, (), engine_kw={'max_ticks': 10 ** 7},
